@@ -10,6 +10,10 @@ func CloneProgram(p *Program) *Program {
 		q.Consts = append(q.Consts, cloneStmt(c).(*Let))
 	}
 	for _, f := range p.Funcs {
+		if f.Shared {
+			q.Funcs = append(q.Funcs, f)
+			continue
+		}
 		g := *f
 		g.Body = cloneStmts(f.Body)
 		q.Funcs = append(q.Funcs, &g)
@@ -169,6 +173,9 @@ type Visitor struct {
 
 func Walk(p *Program, v Visitor) {
 	for _, f := range p.Funcs {
+		if f.Shared {
+			continue
+		}
 		walkList(&f.Body, v)
 	}
 }
